@@ -793,6 +793,20 @@ pub fn parse_offset(iter: &mut Iter<'_>) -> Option<i64> {
 }
 
 pub fn parse_query(iter: &mut Iter<'_>) -> Query {
+    let query = parse_query_inner(iter);
+    // Only comments may follow a complete query. `(1 + 2)) * 3` is not 3,
+    // `1,000 * 2` is not 1 and `1 ) / 0` is not 1.
+    if let Query::Search(_) | Query::Error(_) = query {
+        return query;
+    }
+    skip_comments(iter);
+    match iter.peek().cloned() {
+        None | Some(Token::Eof) => query,
+        Some(x) => Query::Error(format!("Expected end of input, got {}", describe(&x))),
+    }
+}
+
+fn parse_query_inner(iter: &mut Iter<'_>) -> Query {
     match iter.peek().cloned() {
         Some(Token::Ident(ref s)) if s == "factorize" => {
             iter.next();
